@@ -496,7 +496,8 @@ type ReqOpt struct {
 	Path    string
 	Hdr     http.Header
 	Body    []byte
-	NoCL    bool // unknown content length
+	NoCL    bool  // unknown content length
+	DeclLen int64 // declared Content-Length for a BodyRdr (0 = leave as built)
 	BodyRdr io.Reader
 	CType   string
 }
@@ -556,6 +557,8 @@ func (w *World) StartReq(kind string, s *Sess, o ReqOpt) *Req {
 	req.RemoteAddr = "10.0.0.1:1234"
 	if o.NoCL {
 		req.ContentLength = -1
+	} else if o.DeclLen > 0 {
+		req.ContentLength = o.DeclLen
 	}
 	for k, v := range o.Hdr {
 		req.Header[k] = v
